@@ -111,8 +111,7 @@ def no_double_hyphen_literals(prog, chk):
     n = 0
     bad = []
     badc = []
-    for bid, h in prog.hir.items():
-        b = prog.bodies.get(bid)
+    for b, h in prog.hir_items():
         if b is None or b.unit != "svgdx-lib" or not isinstance(h, dict) or b.path.startswith("svgdx::cli::") or b.path.startswith("svgdx::server::"):
             continue
         for node in hirq.walk(h.get("body")):
